@@ -137,6 +137,12 @@ pub struct Outputs {
     pub callbacks: Vec<String>,
 }
 
+/// 16 KiB of text no generation produces
+fn stale() -> &'static str {
+    static S: std::sync::OnceLock<String> = std::sync::OnceLock::new();
+    S.get_or_init(|| "// stale line of an earlier, longer generation at this path ................................\n".repeat(170))
+}
+
 fn one_generation(input: &BgInput, src: &Path, outdir: &Path, seed: Option<u64>, builder_reuse: u8) -> Vec<Outputs> {
     std::fs::create_dir_all(outdir).ok();
     let mut args: Vec<String> = vec!["bindgen".into()];
@@ -158,9 +164,11 @@ fn one_generation(input: &BgInput, src: &Path, outdir: &Path, seed: Option<u64>,
     let mut outs = vec![];
     for _ in 0..builder_reuse.max(1) {
         rec.log.lock().unwrap().clear();
-        let _ = std::fs::remove_file(outdir.join("deps.d"));
-        let _ = std::fs::remove_file(outdir.join("extern.c"));
-        let _ = std::fs::remove_file(outdir.join("extern.cpp"));
+        // side files start out as the (longer) leftovers of an earlier generation at the same
+        // path: a generation must replace them, not write into them
+        for f in ["deps.d", "extern.c", "extern.cpp"] {
+            let _ = std::fs::write(outdir.join(f), stale());
+        }
         bindgen::verif::set_thread_config(Some((false, seed)));
         let r = bg::generate_with(b.clone());
         bindgen::verif::set_thread_config(None);
@@ -171,11 +179,13 @@ fn one_generation(input: &BgInput, src: &Path, outdir: &Path, seed: Option<u64>,
         };
         let od = outdir.to_str().unwrap();
         let norm = |s: String| s.replace(od, "{DIR}");
-        let wrapper = std::fs::read_to_string(outdir.join("extern.c")).or_else(|_| std::fs::read_to_string(outdir.join("extern.cpp"))).ok().map(norm);
+        // an untouched leftover means "not written by this generation"
+        let fresh = |f: &str| std::fs::read_to_string(outdir.join(f)).ok().filter(|t| t != stale());
+        let wrapper = fresh("extern.c").or_else(|| fresh("extern.cpp")).map(norm);
         outs.push(Outputs {
             kind: kind.into(),
             text: norm(text),
-            depfile: std::fs::read_to_string(outdir.join("deps.d")).ok().map(norm),
+            depfile: fresh("deps.d").map(norm),
             wrapper,
             callbacks: rec.log.lock().unwrap().iter().map(|l| l.replace(od, "{DIR}")).collect(),
         });
